@@ -114,7 +114,13 @@ PROPS = {
                                   'WAITING checkpoint: about 2600 histories (thorough: up to 4 requests)'}],
             'not_claimed': []},
     'C01': {'scans': ['allowed_subset_graph', 'state_written_only_by_the_machine'], 'trusted': [],
-            'bounded': [{'name': 'control_history_search', 'recipe': 'control_histories', 'args': {'claims': ['C01']},
+            'bounded': [{'name': 'lifecycle_program_search', 'recipe': 'lifecycle_programs',
+                         'functions': 'whole runs through Process.step / transition_to / the termination hooks and listeners (history over '
+                                      'the event loop), for programs ending in each command',
+                         'bound': '11 programs (plain value, None, Stop, UnsuccessfulResult, Kill with / without a message, Continue and '
+                                  'Wait followed by a value or a Kill, a raising step) with a listener attached: every state entered is an '
+                                  'edge of the lifecycle graph, the terminal state is the expected one, exactly one terminal notification'},
+                        {'name': 'control_history_search', 'recipe': 'control_histories', 'args': {'claims': ['C01']},
                          'functions': 'Process.step over control-request histories (terminal states are final while the stepping task is parked)',
                          'bound': 'the control-request histories of C04 (about 2600): no step function runs and the state does not change after kill() returned True'}],
             'not_claimed': []},
